@@ -85,7 +85,8 @@ class SmtLibSolver(Solver): # TODO this class is defined twice in pysmt. Here an
                             bufsize=-1)
         # Give time to the process to start-up
         time.sleep(0.01)
-        self.parser = SmtLibParser(interactive=True)
+        self.parser = SmtLibParser(environment=self.environment,
+                                   interactive=True)
         self.solver_stdin = TextIOWrapper(self.solver.stdin)
         self.solver_stdout = TextIOWrapper(self.solver.stdout)
 
